@@ -1,4 +1,5 @@
 import RasnModel.Proofs.Names
+import RasnModel.Proofs.LexNames
 /-
   C16 — generated identifiers are legal and keep the ASN.1 name recoverable.
   `rustKeywords` is REGENERATED from /repo (Extracted/Names.lean): the table facts below are
@@ -397,5 +398,55 @@ theorem C16_no_hyphen (s : List Char) (h : Asn1Ident s) :
 example : Asn1Ident "type".toList ∧ toSnake "type".toList = "r_type".toList ∧ toTitle "self".toList = "R_Self".toList ∧
     toSnake "myType-1A".toList = "my_type_1_a".toList ∧ toTitle "a-b-c".toList = "ABC".toList ∧
     toEnumIdent "Self".toList = "R_Self".toList ∧ toConst "max-Value".toList = "MAX_VALUE".toList := by decide
+
+/-! ### the names the lexer hands on (`Lexer/Names`, tied by the hook `scan_name`) -/
+section LexerNames
+open Lexer.Names
+
+/-- **domain**: whatever `type_reference`, `identifier` or `value_reference` takes is an `Asn1Ident` — the
+    hypothesis of every mangling theorem above, so they apply to every name the lexer hands on -/
+theorem C16_lexer_names_in_domain (inp name rest : List Char) :
+    (typeReference asn1Keywords inp = some (name, rest) → Asn1Ident name) ∧
+    (identifier inp = some (name, rest) → Asn1Ident name) ∧
+    (valueReference inp = some (name, rest) → Asn1Ident name) := by
+  refine ⟨?_, ?_, ?_⟩
+  · intro h
+    simp only [typeReference] at h
+    split at h
+    · rename_i n r hs
+      split at h
+      · cases h
+      · simp only [Option.some.injEq, Prod.mk.injEq] at h
+        obtain ⟨h1, h2⟩ := h
+        subst h1; subst h2
+        exact Proofs.LexNames.scanned_is_Asn1Ident isUpper (fun c hc => by simp [isAlpha, hc]) inp _ _ hs
+    · cases h
+  · intro h
+    exact Proofs.LexNames.scanned_is_Asn1Ident isAlpha (fun c hc => hc) inp name rest h
+  · intro h
+    exact Proofs.LexNames.scanned_is_Asn1Ident isLower (fun c hc => by simp [isAlpha, hc]) inp name rest h
+
+/-- **nothing is cut short, nothing glued on**: a scanned name is followed by nothing that could continue it
+    (not a letter or digit, and no hyphen leading on to one), and name ++ rest is the input -/
+theorem C16_scanned_name_whole (first : Char → Bool) (inp name rest : List Char) (h : scanName first inp = some (name, rest)) :
+    wfName first name = true ∧ name ++ rest = inp ∧ stops rest = true :=
+  Props.Names.scan_sound first inp name rest h
+
+/-- **every name is taken**: an X.680 §12 name of the right kind, followed by nothing or by a character that cannot
+    continue it, is scanned whole; a type reference unless it is a reserved word of the regenerated table -/
+theorem C16_every_name_is_scanned (name rest : List Char) (hs : stops rest = true) :
+    (wfName isAlpha name = true → identifier (name ++ rest) = some (name, rest)) ∧
+    (wfName isLower name = true → valueReference (name ++ rest) = some (name, rest)) ∧
+    (wfName isUpper name = true → asn1Keywords.contains name = false → typeReference asn1Keywords (name ++ rest) = some (name, rest)) := by
+  refine ⟨fun hw => Props.Names.scan_complete isAlpha name rest hw hs, fun hw => Props.Names.scan_complete isLower name rest hw hs, ?_⟩
+  intro hw hk
+  simp only [typeReference, Props.Names.scan_complete isUpper name rest hw hs, hk]
+  simp
+
+/-- the left-to-right reading of a name is the prose of §12.3 (letters, digits, hyphens; no hyphen last, no two in a row) -/
+theorem C16_wellformed_is_the_prose (t : List Char) (prev : Char) (h : isAlnum prev = true) : wfTail t = prose prev t :=
+  Props.Names.wfTail_iff_prose t prev h
+
+end LexerNames
 
 end Props.C16
